@@ -131,12 +131,13 @@ def coq_verdicts(name, progs_, outs, with_time_flags):
         rows = []
         for i in sh:
             o = outs[i]
-            rows.append('(verdicts5 %s %d %s %s %s)' % (enc_codes(o['codes']), progs_[i].get('tick', 0),
+            rows.append('(verdicts6 %s %d %s %s %s)' % (enc_codes(o['codes']), progs_[i].get('tick', 0),
                                                         'true' if with_time_flags[i] else 'false',
                                                         enc_ops(o['ops']), enc_snaps(o['snaps'])))
-        body = 'Definition rows : list (bool * bool * bool * bool * bool) := [\n' + ';\n'.join(rows) + '].\n'
+        body = 'Definition rows : list (bool * bool * bool * bool * bool * bool) := [\n' + ';\n'.join(rows) + '].\n'
         body += 'Definition fi (l : list bool) := (fix go (i : Z) (l : list bool) := match l with [] => [] | b :: t => if b then go (i+1) t else i :: go (i+1) t end) 0 l.\n'
-        body += 'Eval vm_compute in (fi (map (fun r => fst (fst (fst (fst r)))) rows)).\n'
+        body += 'Eval vm_compute in (fi (map (fun r => fst (fst (fst (fst (fst r))))) rows)).\n'
+        body += 'Eval vm_compute in (fi (map (fun r => snd (fst (fst (fst (fst r))))) rows)).\n'
         body += 'Eval vm_compute in (fi (map (fun r => snd (fst (fst (fst r)))) rows)).\n'
         body += 'Eval vm_compute in (fi (map (fun r => snd (fst (fst r))) rows)).\n'
         body += 'Eval vm_compute in (fi (map (fun r => snd (fst r)) rows)).\n'
@@ -146,12 +147,12 @@ def coq_verdicts(name, progs_, outs, with_time_flags):
     verdict = {}
     errors = []
     for sh, r in zip(shards, res):
-        if r[0] != 'ok' or len(r[1]) != 5:
+        if r[0] != 'ok' or len(r[1]) != 6:
             errors.append(str(r[1])[-800:])
             continue
         bad = [set(x) for x in r[1]]
         for j, i in enumerate(sh):
-            verdict[i] = (j not in bad[0], j not in bad[1], j not in bad[2], j not in bad[3], j not in bad[4])
+            verdict[i] = tuple(j not in b for b in bad)
     return verdict, errors
 
 
@@ -461,6 +462,12 @@ def run_property(prop, module, theorems, tier, seed, nquick, nthorough, feature_
         v = verdict.get(i)
         if v is not None and hyp and v[4] != hyp['NoCollision']:
             res.infra_errors.append('no_collision evaluated in Coq (%s) and in Python (%s) disagree on program %d' % (v[4], hyp['NoCollision'], i))
+        if v is not None and not v[5] and ok and not p['threads'] and hyp.get('SegmentsClosed', True) and aspect in ('hits', 'time'):
+            # the theorems' own right-hand sides (executed - in_flight - dropped; per-activation time) disagree
+            # with the implementation's last snapshot although the executable specification agrees
+            res.infra_errors.append('theorem right-hand side and executable specification disagree on program %d' % i)
+        if v is not None and not v[5] and not ok:
+            pass
         if v is not None and not v[0]:
             res.mismatches.append(dict(case=sample(p, o, 40), program=p['files'], impl=dict(snaps=o['snaps'][:2]),
                                        model='concrete tracer model disagrees with the implementation'))
